@@ -128,6 +128,7 @@ StepAction(e) ==
   \/ /\ e.a = "StartPersist" /\ StartPersist /\ Match(e, <<>>)
   \/ /\ e.a = "Tick" /\ Tick /\ Match(e, <<>>)
   \/ /\ e.a = "StopRestart" /\ StopRestart /\ Match(e, <<>>)
+  \/ /\ e.a = "StopSame" /\ StopSame /\ Match(e, <<>>)
   \* C11: the live state saved as JSON and as pickle (scratch files) and loaded into fresh gateways
   \/ /\ e.a = "Snapshot" /\ UNCHANGED vars
      /\ Clause("rtjson",   e.json.tree = TreeSeq(Persisted(nodes)))
